@@ -97,6 +97,31 @@ impl Ctx {
     pub fn fail(&mut self, idx: usize, key: &str, msg: String) {
         self.oracle.push(format!("{} {} {}", idx, key, msg.replace('\n', " ")));
     }
+    pub fn oracle_len(&self) -> usize {
+        self.oracle.len()
+    }
+    /// replace the key of every oracle failure recorded since position `from`
+    pub fn rekey_since(&mut self, from: usize, key: &str) {
+        for l in self.oracle[from..].iter_mut() {
+            let mut parts = l.splitn(3, ' ');
+            let idx = parts.next().unwrap_or("").to_string();
+            let old = parts.next().unwrap_or("").to_string();
+            let rest = parts.next().unwrap_or("").to_string();
+            *l = format!("{} {} [{}] {}", idx, key, old, rest);
+        }
+    }
+    /// the same, only for failures whose key is `old_key`
+    pub fn rekey_matching_since(&mut self, from: usize, old_key: &str, key: &str) {
+        for l in self.oracle[from..].iter_mut() {
+            let mut parts = l.splitn(3, ' ');
+            let idx = parts.next().unwrap_or("").to_string();
+            let old = parts.next().unwrap_or("").to_string();
+            let rest = parts.next().unwrap_or("").to_string();
+            if old == old_key {
+                *l = format!("{} {} {}", idx, key, rest);
+            }
+        }
+    }
     pub fn count(&mut self, key: &str) {
         *self.counters.entry(key.to_string()).or_insert(0) += 1;
     }
